@@ -547,6 +547,9 @@ fn c11_server(tier: &str, seed: u64) {
     };
     let mut done: Vec<u8> = Vec::new();
     let mut trace = format!("new:{}", hex(&mds));
+    // a long-lived FOLLOWER (odd cases): it imports every exported state over whatever it holds at
+    // that moment - the previous import plus punctures of its own, possibly more than the leader's
+    let mut follower: Option<Server> = if si % 2 == 1 { Some(Server::new(vec![9, 8, 7]).expect("Server::new")) } else { None };
     for step in 0..g.range(2, 7) {
       // registered tags, unregistered ones, extremes, siblings of earlier punctures, repeats
       let md = match g.below(6) {
@@ -564,8 +567,28 @@ fn c11_server(tier: &str, seed: u64) {
       // the exported state, through bincode, into a server with its own identity
       let bytes = bincode::serialize(&server.get_private_key()).expect("serialize key state");
       let st: ServerKeyState = bincode::deserialize(&bytes).expect("deserialize key state");
-      let mut importer = Server::new(vec![9, 8, 7]).expect("Server::new");
+      let mut importer = match follower.take() {
+        Some(mut f) => {
+          // local punctures of the follower before the next sync (any tags, often several)
+          for _ in 0..g.below(4) {
+            let x = g.next() as u8;
+            let r = f.puncture(x);
+            trace.push_str(&format!(" follower-pu:{}:{}", x, if r.is_ok() { "ok" } else { "err" }));
+          }
+          stat("oracle.C11.imports_into_a_used_follower");
+          f
+        }
+        None => Server::new(vec![9, 8, 7]).expect("Server::new"),
+      };
       importer.set_private_key(st);
+      trace.push_str(" import");
+      // whole-state replacement: the importer holds exactly the exporter's nodes
+      {
+        let (a, b) = (server.verif_pprf().verif_retained_nodes(), importer.verif_pprf().verif_retained_nodes());
+        if a != b || server.verif_pprf().verif_punctured() != importer.verif_pprf().verif_punctured() {
+          fail("imported_key_state_differs_from_exported", &[("registered_tags", hex(&mds)), ("trace", trace.clone()), ("exporter_nodes", a.len().to_string()), ("importer_nodes", b.len().to_string())]);
+        }
+      }
       for (holder, srv) in [("key holder", &server), ("importer of the exported key state", &importer)] {
         let nodes = srv.verif_pprf().verif_retained_nodes();
         for &x in &done {
@@ -596,6 +619,9 @@ fn c11_server(tier: &str, seed: u64) {
       }
       case(true);
       stat("oracle.C11.server_states");
+      if si % 2 == 1 {
+        follower = Some(importer);
+      }
     }
   }
 }
